@@ -16,8 +16,16 @@ Definition d_listen : dec listen_cfg :=
   dlet dyn := d_bool in dlet nr := d_bool in dlet dr := d_bool in dlet mr := d_bool in
   d_ret {| lc_addr := a; lc_udp := u; lc_tcp := t; lc_backends := bs; lc_dynamic := dyn;
            lc_no_received := nr; lc_def_route := dr; lc_must_rr := mr |}.
+(* the keep token: the service's keepNextHopRoute text as the YAML has it, then optionally '|' and the value of
+   the environment variable KEEP_NEXT_HOP_ROUTE the driver sets before startProxy (stored cases: "1" / "0") *)
+Definition d_keep : dec bool :=
+  dlet t := d_bytes in
+  d_ret (match index_byte "|"%char t with
+         | Some p => to_keep_next_hop_route (firstn p t) (skipn (S p) t)
+         | None => to_keep_next_hop_route t []
+         end).
 Definition d_cfg : dec cfg :=
-  dlet name := d_bytes in dlet keep := d_bool in dlet dt := d_int in
+  dlet name := d_bytes in dlet keep := d_keep in dlet dt := d_int in
   dlet routes := d_list (d_pair d_bytes (d_pair d_bytes d_bytes)) in
   dlet hosts := d_list (d_pair d_bytes d_bytes) in
   dlet ls := d_list d_listen in
